@@ -49,7 +49,9 @@ def tree_fingerprints(repo):
         out[rel] = vgraph.module_fingerprints(trees[m.name], m.name, m.is_pkg, known, inl)
     helpers = sorted(f"{rel}::{h}" for rel, m in out.items() for h in m["inlined"])      # evaluated inside a caller
     transparent = sorted(f"{rel}::{h}" for rel, m in out.items() for h in m["transparent"])   # every use evaluated in place
-    return {"modules": out, "helpers": helpers, "transparent": transparent, "identifiers": sorted(_identifiers(trees))}
+    import hashlib
+    sources = {rel: hashlib.sha256(m.source.encode()).hexdigest()[:16] for rel, m in repo.modules.items()}
+    return {"modules": out, "sources": sources, "helpers": helpers, "transparent": transparent, "identifiers": sorted(_identifiers(trees))}
 
 
 _REF = None
@@ -101,6 +103,14 @@ def same_as_reference(chk, rule, rel, key, what):
     chk.inst(rule, f"{rel}::{key}::same-as-reference", ok, f"proven equal to the reference version ({what})" if ok else
              f"no longer proven equal to the reference version — {what}", where)
     return ok
+
+
+def is_reference_tree(repo):
+    """The source text of every module is the reference text: nothing to prove (and nothing to excuse)."""
+    import hashlib
+    ref = reference().get("sources", {})
+    cur = {rel: hashlib.sha256(m.source.encode()).hexdigest()[:16] for rel, m in repo.modules.items()}
+    return bool(ref) and cur == ref
 
 
 def compare(repo):
